@@ -154,6 +154,12 @@ def h_d3_strcontent(ctx, kind, n, chname):
         data = W().SECONDARY[300].encode("latin-1")
     elif kind == "jid":
         data = b"4915901234@s.whatsapp.net"
+    elif kind == "jid-free":
+        # a JID whose user part is n arbitrary Latin-1 characters (no '@'): travels as a JID pair with a literal user
+        s = H.chars(ctx, "s", n)
+        for i in range(n):
+            ctx.assume(CC.ctx_last_code(ctx, "s", i + 1) != 64)
+        data = (s.encode("latin-1") if not H.sym(ctx) else SymSeq(s.codes(), "bytes")) + b"@s.whatsapp.net"
     elif kind in ("digits", "hex", "nibble", "HEX-only"):
         s = CC.classed_string(ctx, "s", n, kind)
         data = s.encode("latin-1") if not H.sym(ctx) else SymSeq(s.codes(), "bytes")
@@ -203,7 +209,7 @@ def cases(tier):
     for n in ((255, 256, 300) if q else (255, 256, 300, 65536, 1 << 20)):
         for chn in ("default", "len20", "len31"):
             cs.append(dict(name="longstr[n=%d,%s]" % (n, chn), fn=h_longstr, args=(n, chn), weight=2 + n / 2000.0, timeout_s=300 if q else 3000))
-    for kind, ns in (("token", (0,)), ("token2", (0,)), ("jid", (0,)), ("digits", (1, 2, 5)), ("HEX-only", (1, 4)), ("free", (1, 2) if q else (1, 2, 3))):
+    for kind, ns in (("token", (0,)), ("token2", (0,)), ("jid", (0,)), ("digits", (1, 2, 5)), ("HEX-only", (1, 4)), ("free", (1, 2) if q else (1, 2, 3)), ("jid-free", (1, 2))):
         for n in ns:
             for chn in ("strcontent", "strcontent+literal", "strcontent+unpacked"):
                 cs.append(dict(name="d3-strcontent[%s,n=%d,%s]" % (kind, n, chn), fn=h_d3_strcontent, args=(kind, n, chn), weight=4 ** max(n, 1), timeout_s=600))
